@@ -147,6 +147,9 @@ def _calc_cases(clsref, allow_sigma_none=True):
                         self = f.obj(clsref, potential=u, value=old_value, sigma=sigma, apply_hard_core=hc)
                         return dict(self=self, r=r, gamma=gamma)
                     opts = {'post_body': _core_post} if (hc and pot == 'array' and sig == 'real') else {}
+                    if pot == 'array' and sig == 'real':
+                        # PRISM.__init__ assigns .sigma and .potential on closures that may have been evaluated before
+                        opts['history'] = {'method': 'calculate', 'mutable': ('sigma', 'potential')}
                     yield 'hard_core=%s,potential=%s,sigma=%s' % (hc, pot, sig), build, opts
     return gen
 
